@@ -23,6 +23,12 @@ CLAIMED = {
  "C07": dict(cat="other", technique="sibling agreement of the two transfer kernels from one abstractly interpreted generic loop iteration each: window bounds, weight views, component pairing and factors compared as normal forms; accumulate/assign classification; call-site argument identity",
              text="Interpolation is lag[c,i] = dx^dim * sum(eul[c,W_i] * w[...,i]) and spreading is eul[c,W_i] += lag[c,i] * w[...,i] with the identical window W_i, identical weight view, component c->c, the cell-volume factor exactly once, += in a serial range loop, for scalar and vector variants in 2D and 3D; in the forcing class both directions receive the same weights and index arrays with no write in between. Adjointness and force (with C06: torque) conservation follow term by term.",
              note="rounding excluded; trusted A4, A7", ref="5 C07"),
+ "C08": dict(cat="other", technique="pointwise-tensor abstract interpretation of transfer_forcing_from_grid_to_body over one generic element/marker: polynomial component algebra, linear marker sums, nodal accumulation as (next-node, previous-node) contributions, frame typing; symbolic execution of the prefix-sum marker partition; AST rule on FlowForces",
+             text="Decides the structural identities: per element the nodal contributions sum to minus the element's marker forces and are split 1/2-1/2; couples equal Q * sum((x_marker - centre) x (-f)) with the code's own marker positions (edge: mirrored arms; 2D cylinder: Q22 * z-couple), converted lab->material exactly once; marker slices partition the markers; rigid bodies: force = -sum f, couple about the body centre; FlowForces adds after recomputing. Net force / moment / power identities follow by summation for any element count, taper, cap option and surface density.",
+             note="numerical values are the remainder; the nodal grid's end-element torque correction is outside the property; trusted A6 (PyElastica conventions), A7", ref="5 C08"),
+ "C09": dict(cat="other", technique="pointwise-tensor abstract interpretation of compute_lag_grid_position_field / _velocity_field of all forcing-grid classes; polynomial identities against the documented kinematics; frame typing; typestate rule over call sites",
+             text="Positions equal centre + Q^T (local offset) * radius (surface: radius * cap ratio; edge: centre +- r (z x t); sphere: centre + fixed lab offsets; nodal / element-centric: node values / element centres) and velocities equal v_centre + (Q^T omega) x (x_marker - X_centre) with the code's own marker positions, for all poses and velocities (polynomial identities); frames never mix; every velocity evaluation is immediately preceded by the position evaluation on the same grid.",
+             note="the second-order pose-advance clause follows for body-fixed markers and is not separately decided; trusted A6, A7", ref="5 C09"),
  "C10": dict(cat="other", technique="abstract instantiation of the interaction class with a stub forcing grid; enumeration of all stores into the integral / flow velocity / instance attributes over the traces of every entry point; elementwise reading of the whole-array numba kernels; accumulate/assign classification of the spread; package-wide AST who-may-write scan",
              text="Single writer of the position-mismatch integral (time_step, Euler forward with the caller's dt, time += dt once); evaluation entry points never write it, the flow velocity, or instance attributes; extracted law V = u_interp - u_body, F = k P + c V; both coefficients scaled by max spacing^(dim-1) exactly once; every pipeline stage reads what the previous stage produced; reset mode = zero fill + accumulate, otherwise accumulate only. By induction over the single writer this is the property for all call histories.",
              note="body-state purity of concrete forcing grids is analysed with C08/C09; trusted A4, A7", ref="5 C10"),
